@@ -96,20 +96,20 @@ def structures(tier):
 
 def to_spec(struct, order, pal, volts, phased, pol=1, prefix_names=False, nano=False):
     L = dict(letters(pal))
-    if nano:   # nano-watt subsystems: a few nW are a power like any other (efficiency of a Subsystem / the total is still 100 (P-L)/P)
-        L["IL"] = ("ILoad", dict(ii=1.1e-9))
+    if nano:   # nano-watt subsystems at currents the solver resolves (10 uV supplies, sub-milliamp loads): a few nW are a power like any other
+        L["IL"] = ("ILoad", dict(ii=5e-4))
         L["PLx"] = ("PLoad", dict(pwr=2.3e-9, loss=True))
-        L["CVc"] = ("Converter", dict(vo=1.2, eff=0.8, iq=0.4e-9))
-        L["RL"] = ("RLoss", dict(rs=5.0e6))
-        L["MX"] = ("PMux", dict(rs=1.0e6, ig=0.2e-9))
-    V = PALETTES[pal]["V"]
+        L["CVc"] = ("Converter", dict(vo=4e-6, eff=0.8, iq=1e-5))
+        L["RL"] = ("RLoss", dict(rs=1e-4))
+        L["MX"] = ("PMux", dict(rs=1e-4, ig=1e-5))
+    V = PALETTES[pal]["V"] if not nano else 2e-6 * PALETTES[pal]["V"]
     lk = {"R": "RL", "C": "CVc", "I": "IL", "P": "PLx", "M": "MX"}
     comps = []
     for n in order:
         l, ps = struct[n]
         if l == "S":
             j = int(n[1:])
-            comps.append(dict(n=n, k="Source", a=dict(vo=_r(pol * volts[j - 1] * V * (1 + 0.11 * j)), rs=_r(0.05 * j) if pol > 0 else 0.0), p=[], g="", r="",
+            comps.append(dict(n=n, k="Source", a=dict(vo=_r(pol * volts[j - 1] * V * (1 + 0.11 * j)), rs=(_r(0.05 * j) if not nano else _r(1e-4 * j)) if pol > 0 else 0.0), p=[], g="", r="",
                               pc=(["a"] if (phased and j == 1) else None), lim=None))
         else:
             kind, args = L[lk[l]]
